@@ -280,6 +280,10 @@ pub struct Printer<'a> {
     pub naming: Naming,
     pub out: String,
     pub indent: usize,
+    /// syntactic noise for the formatter checks: redundant parentheses, trailing commas,
+    /// comments, odd spacing, `-0` and empty argument lists
+    pub noise: Option<crate::rng::Rng>,
+    pub neg_zero_emitted: bool,
 }
 
 const L_TERM: u8 = 4;
@@ -289,7 +293,7 @@ const L_T1: u8 = 1;
 
 impl<'a> Printer<'a> {
     pub fn new(p: &'a Prog, naming: Naming) -> Self {
-        Printer { p, naming, out: String::new(), indent: 0 }
+        Printer { p, naming, out: String::new(), indent: 0, noise: None, neg_zero_emitted: false }
     }
 
     pub fn bname(&self, b: usize) -> String {
@@ -299,14 +303,37 @@ impl<'a> Printer<'a> {
         }
     }
 
+    fn chance(&mut self, num: u32, den: u32) -> bool {
+        match &mut self.noise {
+            Some(r) => r.chance(num, den),
+            None => false,
+        }
+    }
+
     fn nl(&mut self) {
+        if self.chance(1, 12) {
+            self.out.push_str(" // note");
+        } else if self.chance(1, 10) {
+            self.out.push(' ');
+            return;
+        }
         self.out.push('\n');
         for _ in 0..self.indent {
             self.out.push_str("  ");
         }
     }
 
+    pub fn program_with_flag(self) -> (String, bool) {
+        let mut me = self;
+        let text = me.program_inner();
+        (text, me.neg_zero_emitted)
+    }
+
     pub fn program(mut self) -> String {
+        self.program_inner()
+    }
+
+    fn program_inner(&mut self) -> String {
         let p = self.p;
         for t in &p.templates {
             let kw = if t.is_data { "data" } else { "codata" };
@@ -358,7 +385,7 @@ impl<'a> Printer<'a> {
             self.nl();
             self.out.push_str("}\n");
         }
-        self.out
+        std::mem::take(&mut self.out)
     }
 
     fn level(t: &T) -> u8 {
@@ -383,12 +410,22 @@ impl<'a> Printer<'a> {
                 }
             }
         }
+        if !args.is_empty() && self.chance(1, 10) {
+            self.out.push_str(", ");
+        }
     }
 
     /// operand of a comparison: never lets a bare `0` touch the comparison token
     fn cmp_operand(&mut self, t: &T) {
         match t {
-            T::Lit(0) => self.out.push_str("(0)"),
+            T::Lit(0) => {
+                if self.chance(1, 2) {
+                    self.neg_zero_emitted = true;
+                    self.out.push_str("-0")
+                } else {
+                    self.out.push_str("(0)")
+                }
+            }
             _ => self.term(t, L_T1),
         }
     }
@@ -418,6 +455,15 @@ impl<'a> Printer<'a> {
     }
 
     pub fn term(&mut self, t: &T, max: u8) {
+        if self.chance(1, 14) {
+            self.out.push('(');
+            if self.chance(1, 3) {
+                self.out.push(' ');
+            }
+            self.term(t, L_TERM);
+            self.out.push(')');
+            return;
+        }
         if Self::level(t) > max {
             self.out.push('(');
             self.term(t, L_TERM);
@@ -507,6 +553,8 @@ impl<'a> Printer<'a> {
                     self.out.push('(');
                     self.args(args);
                     self.out.push(')');
+                } else if self.chance(1, 4) {
+                    self.out.push_str("()");
                 }
             }
             T::Dtor { scrut, inst, idx, args } => {
@@ -550,6 +598,14 @@ impl<'a> Printer<'a> {
 
 pub fn print_prog(p: &Prog, naming: Naming) -> String {
     Printer::new(p, naming).program()
+}
+
+/// the same program with syntactic noise; returns (text, whether `-0` occurs as a comparison operand)
+pub fn print_prog_noisy(p: &Prog, naming: Naming, seed: u64) -> (String, bool) {
+    let mut pr = Printer::new(p, naming);
+    pr.noise = Some(crate::rng::Rng::new(seed));
+    let (text, nz) = pr.program_with_flag();
+    (text, nz)
 }
 
 /// Number of term nodes (size measure)
